@@ -637,4 +637,282 @@ theorem existsWalkN_dropRows_cell (w : World) (u : VarId) (evs : List Ev) (seen 
         · rw [dropRows_append, ih _ hrest]; rfl
         · exact ih _ hrest
 
+/-! ### event-set invariants through the quantifiers -/
+
+theorem AllEv.of_cons {P : Ev → Prop} {e : Ev} {l : List Ev} (h : AllEv P (e :: l)) : P e ∧ AllEv P l :=
+  ⟨h e (List.mem_cons_self ..), fun x hx => h x (List.mem_cons_of_mem _ hx)⟩
+theorem AllEv.cons {P : Ev → Prop} {e : Ev} {l : List Ev} (he : P e) (hl : AllEv P l) : AllEv P (e :: l) := by
+  intro x hx
+  rcases List.mem_cons.1 hx with rfl | hx
+  · exact he
+  · exact hl x hx
+theorem AllEv.of_append {P : Ev → Prop} {a b : List Ev} (h : AllEv P (a ++ b)) : AllEv P a ∧ AllEv P b :=
+  ⟨fun x hx => h x (List.mem_append_left _ hx), fun x hx => h x (List.mem_append_right _ hx)⟩
+
+/-- splicing nothing in leaves the stream's own events -/
+theorem substCells_silent (evs : List Ev) : substCells (fun _ _ => []) evs = dropRows evs := by
+  induction evs with
+  | nil => rfl
+  | cons e evs ih =>
+    cases e with
+    | pull v i => rw [substCells_cons_pull, ih]; rfl
+    | read o n => rw [substCells_cons_read, ih]; rfl
+    | err e => rw [substCells_cons_err, ih]; rfl
+    | row r => rw [substCells_cons_row, ih]; rfl
+
+/-- the pull/read/exception events of an expression's stream are its trace under the silent consumer -/
+theorem dropRows_streamN (w : World) (e : Expr) (env : Env) :
+    dropRows (streamN w e env) = traceN w e env fun _ _ => [] := by
+  rw [traceN_eq_substCells w e env fun _ _ => [], substCells_silent]
+
+/-- every event of the `Exists` walk is an event of the child's stream, an event of the consumer at one of the
+child's results, or the `KeyError` -/
+theorem existsWalkN_allEv {P : Ev → Prop} (herr : P (.err .keyError)) (w : World) (u : VarId)
+    (k : Env → Bool → List Ev) (evs : List Ev) (seen : List Val)
+    (h : AllEv P (substCells (fun e _ => k e true) evs)) : AllEv P (existsWalkN w u k evs seen) := by
+  induction evs generalizing seen with
+  | nil => exact AllEv.nil P
+  | cons e evs ih =>
+    cases e with
+    | pull v i => rw [substCells_cons_pull] at h; exact AllEv.cons h.of_cons.1 (ih _ h.of_cons.2)
+    | read o n => rw [substCells_cons_read] at h; exact AllEv.cons h.of_cons.1 (ih _ h.of_cons.2)
+    | err e => rw [substCells_cons_err] at h; exact AllEv.cons h.of_cons.1 (ih _ h.of_cons.2)
+    | row r =>
+      rw [substCells_cons_row] at h
+      rw [existsWalkN_row]
+      split
+      · exact AllEv.cons herr (ih _ h.of_append.2)
+      · split
+        · exact AllEv.append h.of_append.1 (ih _ h.of_append.2)
+        · exact ih _ h.of_append.2
+
+theorem uptoCell_fst_subset (evs : List Ev) : ∀ x ∈ (uptoCell evs).1, x ∈ dropRows evs := by
+  induction evs with
+  | nil => intro x hx; cases hx
+  | cons e evs ih =>
+    cases e with
+    | row r => intro x hx; cases hx
+    | pull v i =>
+      intro x hx
+      rcases List.mem_cons.1 hx with rfl | hx
+      · exact List.mem_cons_self ..
+      · exact List.mem_cons_of_mem _ (ih x hx)
+    | read o n =>
+      intro x hx
+      rcases List.mem_cons.1 hx with rfl | hx
+      · exact List.mem_cons_self ..
+      · exact List.mem_cons_of_mem _ (ih x hx)
+    | err e =>
+      intro x hx
+      rcases List.mem_cons.1 hx with rfl | hx
+      · exact List.mem_cons_self ..
+      · exact List.mem_cons_of_mem _ (ih x hx)
+
+theorem recheck_allEv {P : Ev → Prop} (stream : Env → List Ev) (envq : Env) (sols : List Env)
+    (h : ∀ sol, AllEv P (dropRows (stream (merge sol envq)))) : AllEv P (recheck stream envq sols).1 := by
+  induction sols with
+  | nil => exact AllEv.nil P
+  | cons sol rest ih =>
+    exact AllEv.append (fun x hx => h sol x (uptoCell_fst_subset _ x hx)) ih
+
+theorem forAllLoopN_allEv {P : Ev → Prop} (stream : Env → List Ev) (qs : List (List Ev × Env))
+    (hq : ∀ q ∈ qs, AllEv P q.1 ∧ ∀ sol, AllEv P (dropRows (stream (merge sol q.2)))) (sols : List Env) :
+    AllEv P (forAllLoopN stream qs sols).1 := by
+  induction qs generalizing sols with
+  | nil => exact AllEv.nil P
+  | cons q qs ih =>
+    obtain ⟨pre, envq⟩ := q
+    simp only [forAllLoopN]
+    split
+    · exact AllEv.nil P
+    · have h0 := hq _ (List.mem_cons_self ..)
+      exact AllEv.append (AllEv.append h0.1 (recheck_allEv stream envq sols h0.2))
+        (ih (fun q h => hq q (List.mem_cons_of_mem _ h)) _)
+
+/-- every event of a `ForAll` evaluation is: obtaining a universal value, an event of the condition's stream from
+bindings that extend one of the universal bindings, the `TypeError` of an empty universal domain, or an event of the
+consumer -/
+theorem traceForAllN_allEv {P : Ev → Prop} (herr : P (.err .typeError)) (w : World) (u : VarId) (others : List Key)
+    (stream : Env → List Ev) (env : Env) (k : Env → Bool → List Ev)
+    (hq : ∀ q ∈ uvals w u env, AllEv P q.1 ∧ AllEv P (dropRows (stream q.2)) ∧
+      ∀ sol, AllEv P (dropRows (stream (merge sol q.2))))
+    (hk : ∀ sol, AllEv P (k (merge env sol) true)) : AllEv P (traceForAllN w u others stream env k) := by
+  unfold traceForAllN
+  cases hU : uvals w u env with
+  | nil => exact AllEv.single herr
+  | cons q qs =>
+    obtain ⟨pre, env1⟩ := q
+    rw [hU] at hq
+    have h0 := hq _ (List.mem_cons_self ..)
+    refine AllEv.append (AllEv.append (AllEv.append h0.1 h0.2.1) ?_) (AllEv.flatMap _ _ fun sol _ => hk sol)
+    exact forAllLoopN_allEv stream qs (fun q h => ⟨(hq q (List.mem_cons_of_mem _ h)).1,
+      (hq q (List.mem_cons_of_mem _ h)).2.2⟩) _
+
+theorem Bnd.append_left {u : VarId} {a : Env} (b : Env) (h : Bnd u a) : Bnd u (a ++ b) := by
+  induction a with
+  | nil => simp [Bnd] at h
+  | cons p a ih =>
+    obtain ⟨key, x⟩ := p
+    unfold Bnd at h ⊢
+    simp only [List.cons_append, List.lookup_cons] at h ⊢
+    split
+    · rfl
+    · rename_i hne; simp only [hne] at h; exact ih h
+
+theorem Bnd.append_right {u : VarId} (a : Env) {b : Env} (h : Bnd u b) : Bnd u (a ++ b) := by
+  induction a with
+  | nil => exact h
+  | cons p a ih =>
+    obtain ⟨key, x⟩ := p
+    unfold Bnd at ih ⊢
+    simp only [List.cons_append, List.lookup_cons]
+    split
+    · rfl
+    · exact ih
+
+theorem noPull_iff_allEv (u : VarId) (evs : List Ev) : NoPull u evs ↔ AllEv (fun e => ∀ i, e ≠ .pull u i) evs := by
+  constructor
+  · intro h e he i hei; subst hei; exact h i he
+  · intro h i hi; exact h _ hi i rfl
+
+/-- the bindings each universal value is handed over with keep `u` bound, and obtaining them pulls nothing of `u` -/
+theorem uvals_bnd (w : World) (u q : VarId) (env : Env) (hb : Bnd u env) :
+    ∀ p ∈ uvals w q env, NoPull u p.1 ∧ Bnd u p.2 := by
+  unfold uvals
+  cases hl : env.lookup (.var q) with
+  | some x => intro p hp; simp only [List.mem_singleton] at hp; subst hp; exact ⟨NoPull.nil u, hb⟩
+  | none =>
+    have hne : q ≠ u := by rintro rfl; simp [Bnd, hl] at hb
+    intro p hp
+    simp only [List.mem_map] at hp
+    obtain ⟨iv, _, rfl⟩ := hp
+    refine ⟨?_, Bnd.cons_var q iv.2 (Or.inl hb)⟩
+    intro i hi
+    simp only [List.mem_singleton, Ev.pull.injEq] at hi
+    exact hne hi.1.symm
+
+/-- **a bound variable is never pulled**, quantifiers anywhere -/
+theorem traceN_noPull (w : World) (u : VarId) (e : Expr) (env : Env) (k : Env → Bool → List Ev) (hb : Bnd u env)
+    (hk : ∀ e b, Bnd u e → NoPull u (k e b)) : NoPull u (traceN w e env k) := by
+  induction e generalizing env k with
+  | cmp op l r => exact traceCmp_noPull w u l r _ env k hb hk
+  | contains c i => exact traceCmp_noPull w u c i _ env k hb hk
+  | truth t => exact traceTerm_noPull _ _ _ _ _ _ hb fun _ _ _ he => hk _ _ he
+  | hasType t c => exact traceTerm_noPull _ _ _ _ _ _ hb fun _ _ _ he => hk _ _ he
+  | and l r ihl ihr =>
+    simp only [traceN]
+    refine ihl _ _ hb fun e1 t he => ?_
+    split
+    · exact ihr _ _ he hk
+    · exact hk _ _ he
+  | elseIf l r ihl ihr =>
+    simp only [traceN]
+    refine ihl _ _ hb fun e1 t he => ?_
+    split
+    · exact hk _ _ he
+    · exact ihr _ _ he hk
+  | union l r ihl ihr =>
+    simp only [traceN]
+    refine NoPull.append (ihl _ _ hb fun e1 t he => ?_) (ihr _ _ hb hk)
+    split
+    · exact hk _ _ he
+    · exact ihr _ _ he hk
+  | not e ih => exact ih _ _ hb fun _ _ he => hk _ _ he
+  | exists_ q c ih =>
+    simp only [traceN]
+    rw [noPull_iff_allEv]
+    refine existsWalkN_allEv (fun i h => by cases h) w q k _ [] ?_
+    rw [← noPull_iff_allEv]
+    have := traceN_eq_substCells w c env fun e _ => k e true
+    unfold streamN at this
+    rw [← this]
+    exact ih _ _ hb fun e _ he => hk e true he
+  | forAll q c ih =>
+    simp only [traceN]
+    rw [noPull_iff_allEv]
+    refine traceForAllN_allEv (fun i h => by cases h) w q _ _ env k ?_ ?_
+    · intro p hp
+      obtain ⟨h1, h2⟩ := uvals_bnd w u q env hb p hp
+      have hs : ∀ e', Bnd u e' → AllEv (fun e => ∀ i, e ≠ .pull u i) (dropRows (traceN w c e' cell)) := by
+        intro e' he'
+        rw [← noPull_iff_allEv]
+        have := dropRows_streamN w c e'
+        unfold streamN at this
+        rw [this]
+        exact ih _ _ he' fun _ _ _ => NoPull.nil u
+      exact ⟨(noPull_iff_allEv u _).1 h1, hs _ h2, fun sol => hs _ (Bnd.append_left sol h2)⟩
+    · intro sol
+      rw [← noPull_iff_allEv]
+      exact hk _ _ (Bnd.append_right sol hb)
+
+/-! ### pulls stay inside the domains, quantifiers anywhere -/
+
+theorem uvals_pullOk (w : World) (q : VarId) (env : Env) : ∀ p ∈ uvals w q env, AllPullOk w p.1 := by
+  unfold uvals
+  split
+  · intro p hp; simp only [List.mem_singleton] at hp; subst hp; exact AllPullOk.nil w
+  · intro p hp
+    simp only [List.mem_map] at hp
+    obtain ⟨iv, hiv, rfl⟩ := hp
+    intro ev hev
+    simp only [List.mem_singleton] at hev
+    subst hev
+    have := mem_enumFrom _ _ _ hiv
+    show iv.1 < (w.dom q).length
+    omega
+
+theorem traceN_pullOk (w : World) (e : Expr) (env : Env) (k : Env → Bool → List Ev)
+    (hk : ∀ e b, AllPullOk w (k e b)) : AllPullOk w (traceN w e env k) := by
+  induction e generalizing env k with
+  | cmp op l r => exact traceCmp_pullOk w l r _ env k hk
+  | contains c i => exact traceCmp_pullOk w c i _ env k hk
+  | truth t => exact traceTerm_pullOk _ _ _ _ _ fun _ _ _ => hk _ _
+  | hasType t c => exact traceTerm_pullOk _ _ _ _ _ fun _ _ _ => hk _ _
+  | and l r ihl ihr =>
+    simp only [traceN]
+    refine ihl _ _ fun e1 t => ?_
+    split
+    · exact ihr _ _ hk
+    · exact hk _ _
+  | elseIf l r ihl ihr =>
+    simp only [traceN]
+    refine ihl _ _ fun e1 t => ?_
+    split
+    · exact hk _ _
+    · exact ihr _ _ hk
+  | union l r ihl ihr =>
+    simp only [traceN]
+    refine AllPullOk.append (ihl _ _ fun e1 t => ?_) (ihr _ _ hk)
+    split
+    · exact hk _ _
+    · exact ihr _ _ hk
+  | not e ih => exact ih _ _ fun _ _ => hk _ _
+  | exists_ q c ih =>
+    simp only [traceN]
+    refine existsWalkN_allEv (P := PullOk w) trivial w q k _ [] ?_
+    have := traceN_eq_substCells w c env fun e _ => k e true
+    unfold streamN at this
+    rw [← this]
+    exact ih _ _ fun e _ => hk e true
+  | forAll q c ih =>
+    simp only [traceN]
+    refine traceForAllN_allEv (P := PullOk w) trivial w q _ _ env k ?_ fun sol => hk _ _
+    intro p hp
+    have hs : ∀ e', AllEv (PullOk w) (dropRows (traceN w c e' cell)) := by
+      intro e'
+      have := dropRows_streamN w c e'
+      unfold streamN at this
+      rw [this]
+      exact ih _ _ fun _ _ => AllPullOk.nil w
+    exact ⟨uvals_pullOk w q env p hp, hs _, fun sol => hs _⟩
+
+theorem traceQueryN_pullOk (w : World) (q : Query) : AllPullOk w (traceQueryN w q) := by
+  unfold traceQueryN
+  split
+  · refine traceN_pullOk w _ _ _ fun e b => ?_
+    split
+    · exact traceSel_pullOk w _ _ _
+    · exact AllPullOk.nil w
+  · exact traceSel_pullOk w _ _ _
+
 end KrroodVerif.Eql
